@@ -630,7 +630,9 @@ func RNilMatch(c *core.Ctx) {
 		for v := range vals {
 			ordered = append(ordered, v)
 		}
-		sort.Slice(ordered, func(i, j int) bool { return ordered[i].Pos() < ordered[j].Pos() || (ordered[i].Pos() == ordered[j].Pos() && ordered[i].Name() < ordered[j].Name()) })
+		sort.Slice(ordered, func(i, j int) bool {
+			return ordered[i].Pos() < ordered[j].Pos() || (ordered[i].Pos() == ordered[j].Pos() && ordered[i].Name() < ordered[j].Name())
+		})
 		for _, v := range ordered {
 			var uses []ssa.Instruction
 			for _, u := range derefUses(v) {
